@@ -119,9 +119,11 @@ class LoopSpec:
     variant:   optional, for while loops.
     """
 
-    def __init__(self, inv, havoc=None, mutates=(), name=None, cond_pure=True, out_kind=None):
+    def __init__(self, inv, havoc=None, mutates=(), name=None, cond_pure=True, out_kind=None, frame_ok=(), elem_assume=None):
         self.inv, self.havoc, self.mutates, self.name = inv, havoc or {}, tuple(mutates), name
+        self.elem_assume = elem_assume
         self.out_kind = out_kind
+        self.frame_ok = tuple(frame_ok)  # attribute chains the loop may mutate (covered by the invariant)
 
 
 class NS:
@@ -173,6 +175,7 @@ class Interp:
         self.assumed_contracts = set()
         self.inlined = set()
         self.trace = []  # ghost effect trace
+        self.loop_k = {}  # (qualname, ordinal) -> index of the arbitrary iteration on this path (ghost)
         self.journal = []  # undo closures for writes made inside a merged if
         ex.journal = self.journal
         from . import loops as _loops  # installs the view-aware models
